@@ -15,6 +15,7 @@ LEVEL_TEXT = ("On real adapter objects (index off) the monitor records, for ever
               "non-trim actions applied once to the original read over the union of removed parts), and both calls inside "
               "LinkedAdapter.match_to for the four required/optional combinations (3' part searched only in what remains after the 5' part; "
               "None iff a required part is missing; the read then stays untouched and is not counted).")
+LEVEL_TEXT += ' At the command line the adapter list is also given for R2 of a pair (-A/-G/-B) with --no-index.'
 LEVEL_NOTE = ("Trusted base: the per-adapter match_to() results themselves (their correctness is C01/C02), the reference selection rule and "
               "interval arithmetic written from the guide. Instance-level wrappers record the calls; no repository code is edited.")
 VARIANTS = {"quick": ["plain"], "thorough": ["plain"]}
